@@ -34,12 +34,13 @@ pub enum KeyKind {
     EcdsaP521V4,
     EcdsaK256V4,
     Rsa2048V4,
+    Rsa2048V6,
 }
 
 impl KeyKind {
     pub fn version(self) -> KeyVersion {
         match self {
-            KeyKind::Ed25519V6 | KeyKind::Ed448V6 | KeyKind::EcdsaP256V6 => KeyVersion::V6,
+            KeyKind::Ed25519V6 | KeyKind::Ed448V6 | KeyKind::EcdsaP256V6 | KeyKind::Rsa2048V6 => KeyVersion::V6,
             _ => KeyVersion::V4,
         }
     }
@@ -66,7 +67,7 @@ pub fn gen_cert(kind: KeyKind, seed: u64) -> SignedSecretKey {
             KeyType::ECDSA(ECCCurve::Secp256k1),
             KeyType::ECDH(ECCCurve::P256),
         ),
-        KeyKind::Rsa2048V4 => (KeyType::Rsa(2048), KeyType::Rsa(2048)),
+        KeyKind::Rsa2048V4 | KeyKind::Rsa2048V6 => (KeyType::Rsa(2048), KeyType::Rsa(2048)),
     };
     let mut b = SecretKeyParamsBuilder::default();
     b.version(version)
